@@ -2,7 +2,7 @@ ID = "C14"
 LEVEL = "model_checking"
 MIRSYM = "C14"
 BOUNDS = ("port matching: all pairs over {Default, Any, Fixed(u16)}; port normalisation: all u16 x scheme default; authority agreement: all presence/parse/equality combinations; "
-          "gate: all paths of HostFilter::call; HostFilterLayer::new / disable / layer on every path")
+          "gate: all paths of HostFilter::call; HostFilterLayer::new / disable / layer on every path; every return path of response::host_not_allowed / malformed and from_template (status 403 / 400)")
 EXPLANATION = ("Symbolic execution of the rustc MIR of WhitelistedHosts::recognize's port closure, default_port, Authority::inner_from_str, Authority::from_http_request and "
                "HostFilter::call with parser results as symbolic outcomes; z3 compares each with its decision table. A parsed allow list - also an empty one - always enables the filter.")
 TRUSTED = ["rustc MIR dump", "z3 / cvc5", "http::Uri parsing and route_recognizer's pattern matching (uninterpreted)"]
